@@ -189,6 +189,9 @@ impl Column {
                 .unwrap(),
             Column::Int(xs) => {
                 let delta_stats = determine_delta_compressability(&xs[..]);
+                // The double-delta encodings store and re-add the deltas themselves as i64.
+                let deltas_fit_i64 = delta_stats.min_delta >= i64::MIN as i128
+                    && delta_stats.max_delta <= i64::MAX as i128;
                 if delta_stats.min_delta == delta_stats.max_delta
                     && delta_stats.max_delta <= i64::MAX as i128
                     && delta_stats.max_delta >= i64::MIN as i128
@@ -206,7 +209,8 @@ impl Column {
                         .init_delta_encoded_i8();
                     delta_encoded.set_first(xs[0]);
                     delta_encoded.set_data(&delta_encode(xs)[..]).unwrap();
-                } else if delta_stats.min_delta_delta >= i8::MIN as i128
+                } else if deltas_fit_i64
+                    && delta_stats.min_delta_delta >= i8::MIN as i128
                     && delta_stats.max_delta_delta <= i8::MAX as i128
                 {
                     let mut double_delta_encoded = column_builder
@@ -227,7 +231,8 @@ impl Column {
                         .init_delta_encoded_i16();
                     delta_encoded.set_first(xs[0]);
                     delta_encoded.set_data(&delta_encode(xs)[..]).unwrap();
-                } else if delta_stats.min_delta_delta >= i16::MIN as i128
+                } else if deltas_fit_i64
+                    && delta_stats.min_delta_delta >= i16::MIN as i128
                     && delta_stats.max_delta_delta <= i16::MAX as i128
                 {
                     let mut double_delta_encoded = column_builder
@@ -248,7 +253,8 @@ impl Column {
                         .init_delta_encoded_i32();
                     delta_encoded.set_first(xs[0]);
                     delta_encoded.set_data(&delta_encode(xs)[..]).unwrap();
-                } else if delta_stats.min_delta_delta >= i32::MIN as i128
+                } else if deltas_fit_i64
+                    && delta_stats.min_delta_delta >= i32::MIN as i128
                     && delta_stats.max_delta_delta <= i32::MAX as i128
                 {
                     let mut double_delta_encoded = column_builder
